@@ -47,6 +47,9 @@ def run(c):
     # design level: register semantics hold with replace-on-write and provably fail with plain overwrite
     chk = CFG % ("replace", 3 if c.quick else 4) + "SPECIFICATION MCSpec\nINVARIANTS Register ReadsLastWrite OneWrite NoTruncExcl\nVIEW View\nCHECK_DEADLOCK FALSE\n"
     c.tlc("MC_EfiVarFs", "chk.cfg", files={"chk.cfg": chk}, name="design-check", timeout=1800)
+    live = CFG % ("replace", 2) + "SPECIFICATION MCLive\nPROPERTY CallsComplete\nCHECK_DEADLOCK FALSE\n"
+    c.tlc("MC_EfiVarFs", "live.cfg", files={"live.cfg": live}, name="liveness", timeout=1800)
+    c.cov["liveness"] = ["MC_EfiVarFs!MCLive |= CallsComplete (an API write that has begun issues its file-system calls and returns)"]
     neg = CFG % ("overwrite", 3) + "SPECIFICATION MCSpec\nINVARIANTS Register\nVIEW View\nCHECK_DEADLOCK FALSE\n"
     r = c.tlc("MC_EfiVarFs", "neg.cfg", files={"neg.cfg": neg}, name="design-negative", must_pass=False, count=False)
     if "Invariant Register is violated" not in r.out:
